@@ -340,19 +340,28 @@ func runC19(env *lib.Env, rep *lib.Report) {
 	for _, s := range [][]string{{"int", "varchar", "boolean"}, {"bigint", "boolean", "varchar"}, {"varchar", "int", "bigint"}, {"boolean", "bigint", "int"}, {"varchar", "varchar", "int"}} {
 		schemas = append(schemas, s)
 	}
+	// stream length: single-column schemas one longer than the others. The thorough tier first covers the
+	// quick tier's bounds completely (phase 1) and then the longer streams until its soft deadline.
 	maxRecs := 3
-	if env.Thorough() {
-		maxRecs = 4
-	}
+	phase := 1
 	rep.Bounds["schemas"] = fmt.Sprintf("%d (all 1- and 2-column schemas over the four types, five 3-column schemas)", len(schemas))
-	rep.Bounds["record streams"] = fmt.Sprintf("all sequences of <= %d records over the per-schema record alphabet (one record per field value of each column with the others valid; short record; bare quote; unterminated quote as last record) with the identity mapping and comma; plus every injective mapping x separator {, ; tab} with representative streams", maxRecs)
+	rep.Bounds["record streams"] = fmt.Sprintf("all sequences of <= %d records (one fewer for schemas of several columns; the thorough tier then continues with one more record until its deadline) over the per-schema record alphabet (one record per field value of each column with the others valid; short record; bare quote; unterminated quote as last record) with the identity mapping and comma; plus every injective mapping x separator {, ; tab} with representative streams", maxRecs)
 	known := env.OpenKnown()
 	fails := map[string]int{}
 	var db *c19DB
 	n := 0
+	expired := false
+	mine := 0
 	run := func(cs c19Case, fam string) {
 		n++
-		if n%env.NShards != env.Shard {
+		if n%env.NShards != env.Shard || expired {
+			return
+		}
+		mine++
+		if phase == 2 && mine%64 == 0 && env.Expired() {
+			expired = true
+			rep.Exhaustive = false
+			rep.Notes = append(rep.Notes, "soft deadline reached inside phase 2 (streams of up to 4 records); phase 1 (the quick tier's bounds) was covered completely")
 			return
 		}
 		if db == nil || db.tables >= 40 {
@@ -392,105 +401,113 @@ func runC19(env *lib.Env, rep *lib.Report) {
 		db.destroy()
 		db = nil
 	}
-	for _, types := range schemas {
-		// record alphabet for this schema with CSV fields 0..len-1 feeding columns 0..len-1
-		valid := make([]string, len(types))
-		for i, t := range types {
-			valid[i] = c19Fields(t)[1].text
-		}
-		var alphabet []c19Record
-		alphabet = append(alphabet, c19Record{fields: append([]string{}, valid...)})
-		for i, t := range types {
-			for _, f := range c19Fields(t) {
-				r := c19Record{fields: append([]string{}, valid...)}
-				r.fields[i] = f.text
-				alphabet = append(alphabet, r)
+	enumerate := func() {
+		for _, types := range schemas {
+			// record alphabet for this schema with CSV fields 0..len-1 feeding columns 0..len-1
+			valid := make([]string, len(types))
+			for i, t := range types {
+				valid[i] = c19Fields(t)[1].text
 			}
-		}
-		if len(types) > 1 {
-			alphabet = append(alphabet, c19Record{fields: append([]string{}, valid...), defect: "short"})
-		}
-		alphabet = append(alphabet, c19Record{fields: append([]string{}, valid...), defect: "barequote"})
-		alphabet = append(alphabet, c19Record{fields: append([]string{}, valid...), defect: "quote-then-text"})
-		unterminated := c19Record{fields: append([]string{}, valid...), defect: "unterminated"}
-		ident := make([]int, len(types))
-		for i := range ident {
-			ident[i] = i
-		}
-		// (a) all streams of <= maxRecs records (the unterminated quote only as the last record)
-		var rec func(cur []c19Record)
-		rec = func(cur []c19Record) {
-			if len(cur) > 0 {
-				run(c19Case{types: types, dstCols: ident, srcCols: ident, sep: ',', records: cur}, "streams")
-				run(c19Case{types: types, dstCols: ident, srcCols: ident, sep: ',', records: append(append([]c19Record{}, cur...), unterminated)}, "streams+unterminated")
-			}
-			if len(cur) == maxRecs || (len(types) > 1 && len(cur) == maxRecs-1 && !env.Thorough()) {
-				return
-			}
-			for _, a := range alphabet {
-				rec(append(append([]c19Record{}, cur...), a))
-			}
-		}
-		rec(nil)
-		// (b) every injective mapping of CSV fields {0,1,2} to a non-empty ordered subset of the columns x separators
-		reprs := [][]c19Record{{alphabet[0]}, {alphabet[1], alphabet[0]}, {alphabet[len(alphabet)-1], alphabet[0], alphabet[2%len(alphabet)]}}
-		var dsts [][]int
-		var sub func(cur []int)
-		sub = func(cur []int) {
-			if len(cur) > 0 {
-				dsts = append(dsts, append([]int{}, cur...))
-			}
-			for i := range types {
-				used := false
-				for _, c := range cur {
-					if c == i {
-						used = true
-					}
-				}
-				if !used {
-					sub(append(cur, i))
+			var alphabet []c19Record
+			alphabet = append(alphabet, c19Record{fields: append([]string{}, valid...)})
+			for i, t := range types {
+				for _, f := range c19Fields(t) {
+					r := c19Record{fields: append([]string{}, valid...)}
+					r.fields[i] = f.text
+					alphabet = append(alphabet, r)
 				}
 			}
-		}
-		sub(nil)
-		for _, dst := range dsts {
-			var srcs [][]int
-			var inj func(cur []int)
-			inj = func(cur []int) {
-				if len(cur) == len(dst) {
-					srcs = append(srcs, append([]int{}, cur...))
+			if len(types) > 1 {
+				alphabet = append(alphabet, c19Record{fields: append([]string{}, valid...), defect: "short"})
+			}
+			alphabet = append(alphabet, c19Record{fields: append([]string{}, valid...), defect: "barequote"})
+			alphabet = append(alphabet, c19Record{fields: append([]string{}, valid...), defect: "quote-then-text"})
+			unterminated := c19Record{fields: append([]string{}, valid...), defect: "unterminated"}
+			ident := make([]int, len(types))
+			for i := range ident {
+				ident[i] = i
+			}
+			// (a) all streams of <= maxRecs records (the unterminated quote only as the last record)
+			var rec func(cur []c19Record)
+			rec = func(cur []c19Record) {
+				if len(cur) > 0 {
+					run(c19Case{types: types, dstCols: ident, srcCols: ident, sep: ',', records: cur}, "streams")
+					run(c19Case{types: types, dstCols: ident, srcCols: ident, sep: ',', records: append(append([]c19Record{}, cur...), unterminated)}, "streams+unterminated")
+				}
+				if len(cur) == maxRecs || (len(types) > 1 && len(cur) == maxRecs-1) || expired {
 					return
 				}
-				for s := 0; s < 3; s++ {
+				for _, a := range alphabet {
+					rec(append(append([]c19Record{}, cur...), a))
+				}
+			}
+			rec(nil)
+			// (b) every injective mapping of CSV fields {0,1,2} to a non-empty ordered subset of the columns x separators
+			reprs := [][]c19Record{{alphabet[0]}, {alphabet[1], alphabet[0]}, {alphabet[len(alphabet)-1], alphabet[0], alphabet[2%len(alphabet)]}}
+			var dsts [][]int
+			var sub func(cur []int)
+			sub = func(cur []int) {
+				if len(cur) > 0 {
+					dsts = append(dsts, append([]int{}, cur...))
+				}
+				for i := range types {
 					used := false
 					for _, c := range cur {
-						if c == s {
+						if c == i {
 							used = true
 						}
 					}
 					if !used {
-						inj(append(cur, s))
+						sub(append(cur, i))
 					}
 				}
 			}
-			inj(nil)
-			for _, src := range srcs {
-				for _, sep := range []rune{',', ';', '\t'} {
-					for _, rs := range reprs {
-						// widen the records to three CSV fields so that every source index exists; field s feeds dst column
-						var wide []c19Record
-						for _, r := range rs {
-							w := c19Record{fields: []string{"zz", "zz", "zz"}, defect: r.defect}
-							for mi, di := range dst {
-								w.fields[src[mi]] = r.fields[di]
+			sub(nil)
+			for _, dst := range dsts {
+				var srcs [][]int
+				var inj func(cur []int)
+				inj = func(cur []int) {
+					if len(cur) == len(dst) {
+						srcs = append(srcs, append([]int{}, cur...))
+						return
+					}
+					for s := 0; s < 3; s++ {
+						used := false
+						for _, c := range cur {
+							if c == s {
+								used = true
 							}
-							wide = append(wide, w)
 						}
-						run(c19Case{types: types, dstCols: dst, srcCols: src, sep: sep, records: wide}, "mappings")
+						if !used {
+							inj(append(cur, s))
+						}
+					}
+				}
+				inj(nil)
+				for _, src := range srcs {
+					for _, sep := range []rune{',', ';', '\t'} {
+						for _, rs := range reprs {
+							// widen the records to three CSV fields so that every source index exists; field s feeds dst column
+							var wide []c19Record
+							for _, r := range rs {
+								w := c19Record{fields: []string{"zz", "zz", "zz"}, defect: r.defect}
+								for mi, di := range dst {
+									w.fields[src[mi]] = r.fields[di]
+								}
+								wide = append(wide, w)
+							}
+							run(c19Case{types: types, dstCols: dst, srcCols: src, sep: sep, records: wide}, "mappings")
+						}
 					}
 				}
 			}
 		}
+	}
+	enumerate()
+	if env.Thorough() && env.Replay == "" {
+		rep.Bounds["phase 1 (bounds of the quick tier, explored first)"] = map[string]any{"imports enumerated (all shards)": n, "completed": true}
+		phase, maxRecs = 2, 4
+		enumerate()
 	}
 	if db != nil {
 		db.destroy()
